@@ -26,11 +26,16 @@ pub fn block() -> impl Strategy<Value = Vec<HOp>> {
 }
 
 pub fn strategy() -> impl Strategy<Value = Case> {
-    (proptest::collection::vec(file_init(6, 8), 1..=3), proptest::collection::vec(block(), 2..=8)).prop_map(|(files, blocks)| {
-        let mut ops: Vec<HOp> = blocks.into_iter().flatten().collect();
-        ops.truncate(24);
-        HCase { files, ops }
-    })
+    (proptest::collection::vec(file_init(6, 8), 1..=3), proptest::collection::vec(block(), 2..=8), proptest::bool::weighted(0.06)).prop_map(
+        |(mut files, blocks, newline_name)| {
+            let mut ops: Vec<HOp> = blocks.into_iter().flatten().collect();
+            ops.truncate(24);
+            if newline_name {
+                files[0].name = (crate::world::FILE_NAMES.len() - 1) as u8;
+            }
+            HCase { files, ops }
+        },
+    )
 }
 
 pub fn run(case: &Case) -> CaseReport {
